@@ -45,6 +45,10 @@ func validateFile(prop string, root *vt.Node, file []byte, batches []int, pageSi
 	if err := pf.CheckShape(root); err != nil {
 		return nil, problemKey(prop, err)
 	}
+	if v := pf.Meta.Version; v != 1 && v != 2 {
+		// the footer's required version field: 1 for files with v1 features (what this writer produces), 2 at most
+		return nil, viol(prop+"/footer-version", "footer version field is %d (a Parquet file has format version 1 or 2)", v)
+	}
 	if len(pf.RowGroups) != len(batches) {
 		return nil, viol(prop+"/rowgroup-count", "%d row groups in the footer, %d non-empty batches were written", len(pf.RowGroups), len(batches))
 	}
